@@ -15,7 +15,8 @@ import (
 	"time"
 )
 
-const verifDir = "/verif"
+var verifDir = envOr("VERIF_DIR", "/verif") // harnesses, known findings; evidence and replays go to outDir
+var outDir = envOr("VERIF_OUT", verifDir)
 
 type KnownFinding struct {
 	Status   string `json:"status"` // known | fixed
@@ -415,7 +416,7 @@ func cmdCheck(args []string) {
 	validated := 0
 	var reportLines []string
 	exitCode := 0
-	os.MkdirAll(filepath.Join(verifDir, "replays", *prop), 0o755)
+	os.MkdirAll(filepath.Join(outDir, "replays", *prop), 0o755)
 	for i, v := range newVios {
 		var nr *ReplayResult
 		ok := false
@@ -449,7 +450,7 @@ func cmdCheck(args []string) {
 			continue
 		}
 		rf := ReplayFile{Property: *prop, Harness: v.Harness, Assert: v.ID, Kind: v.Kind, Detail: v.Detail, Tape: v.Tape, TapeText: tapeString(v.Tape), Native: nr}
-		path := filepath.Join(verifDir, "replays", *prop, safeName.ReplaceAllString(v.Harness+"__"+v.ID, "_")+".json")
+		path := filepath.Join(outDir, "replays", *prop, safeName.ReplaceAllString(v.Harness+"__"+v.ID, "_")+".json")
 		rf.Cmd = "/verif/bin/gosx replay " + path
 		data, _ := json.MarshalIndent(&rf, "", " ")
 		os.WriteFile(path, data, 0o644)
@@ -485,7 +486,7 @@ func cmdCheck(args []string) {
 			continue
 		}
 		rf := ReplayFile{Property: *prop, Harness: v.Harness, Assert: v.ID, Kind: v.Kind, Detail: v.Detail}
-		path := filepath.Join(verifDir, "replays", *prop, safeName.ReplaceAllString(v.Harness+"__"+v.ID, "_")+".json")
+		path := filepath.Join(outDir, "replays", *prop, safeName.ReplaceAllString(v.Harness+"__"+v.ID, "_")+".json")
 		rf.Cmd = "/verif/bin/gosx check -prop C08"
 		data, _ := json.MarshalIndent(&rf, "", " ")
 		os.WriteFile(path, data, 0o644)
@@ -567,9 +568,9 @@ func cmdCheck(args []string) {
 		},
 		"assumptions": propAssumptions(*prop),
 	}
-	os.MkdirAll(filepath.Join(verifDir, "evidence"), 0o755)
+	os.MkdirAll(filepath.Join(outDir, "evidence"), 0o755)
 	data, _ := json.MarshalIndent(ev, "", " ")
-	os.WriteFile(filepath.Join(verifDir, "evidence", *prop+".json"), data, 0o644)
+	os.WriteFile(filepath.Join(outDir, "evidence", *prop+".json"), data, 0o644)
 	os.RemoveAll(scratch)
 	os.Exit(exitCode)
 }
@@ -631,9 +632,9 @@ func writeEvidenceFailure(prop, tier string, seed int, wall float64, msg string)
 		"property_id": prop, "tier": tier, "seed": seed, "level": "other", "wall_s": wall,
 		"coverage": map[string]interface{}{"explanation": "run was inconclusive: " + msg},
 	}
-	os.MkdirAll(filepath.Join(verifDir, "evidence"), 0o755)
+	os.MkdirAll(filepath.Join(outDir, "evidence"), 0o755)
 	data, _ := json.MarshalIndent(ev, "", " ")
-	os.WriteFile(filepath.Join(verifDir, "evidence", prop+".json"), data, 0o644)
+	os.WriteFile(filepath.Join(outDir, "evidence", prop+".json"), data, 0o644)
 }
 
 func cmdReplay(args []string) {
